@@ -34,6 +34,8 @@ type AttemptPlan struct {
 	Seg            int  // 0 everything, 1 packet-aligned, 2 small random, 3 tiny, 4 mixed
 	EndWithEOF     bool // clean attempts end by the master's EOF packet instead of a cancel
 	FreshStreamer  bool // replica crash+restart: a new Streamer starts from the last accepted label
+	NoCancelCtx    bool // the caller passes context.Background(): nothing can cancel the attempt, it ends by its cause (or by the master closing the connection)
+	SkipRefused    bool // the application skips the transaction its handler refused in the previous attempt: SetBinlogPosition(refused.NextPosition)
 	HandshakeCut   int  // handshake-fin: bytes of the greeting that still arrive
 	ErrorCalls     int  // how many times Error() is called after Stream returned (>=1)
 	SkipErrorCalls bool
@@ -479,6 +481,27 @@ func (r *Run) controller() {
 			}
 			r.newStreamer(st)
 		}
+		if plan.SkipRefused && i > 0 && i-1 < len(r.Results) {
+			// the label of a delivered transaction is an exact resume point (C03): an
+			// application may decide to step over a transaction it cannot apply
+			prev := r.Results[i-1]
+			for k := len(prev.Calls) - 1; k >= 0; k-- {
+				c := prev.Calls[k]
+				if c.Returned && c.Verdict != nil && c.Snap != nil {
+					if !plan.FreshStreamer {
+						r.streamer.SetBinlogPosition(gobinlog.Position{Filename: c.Snap.Next.File, Offset: c.Snap.Next.Off})
+					} else {
+						r.newStreamer(c.Snap.Next)
+					}
+					c.Skipped = true
+					r.lastAcceptedNext, r.haveAccepted = c.Snap.Next, true
+					break
+				}
+				if c.Returned && c.Verdict == nil {
+					break // only the last call of the attempt can be the refused one
+				}
+			}
+		}
 		ok := r.runAttempt(i, plan)
 		if !ok {
 			break
@@ -651,6 +674,9 @@ func (r *Run) runAttempt(idx int, plan AttemptPlan) bool {
 		r.allCancels = append(r.allCancels, r.cancel)
 	}
 	ctx := r.ctx
+	if plan.NoCancelCtx {
+		ctx = context.Background()
+	}
 	if plan.Stop == stopCancelInHandshake && r.sch.Chance(1, 3) {
 		// cancelled before Stream is even called
 		r.cancel()
@@ -773,11 +799,7 @@ func (r *Run) runAttempt(idx int, plan AttemptPlan) bool {
 		if dumping && plan.Stop.streamComposed() && !streamCauseNoted {
 			switch plan.Stop {
 			case stopERR, stopEOF, stopInvalidEvent, stopUnsupportedEvent, stopBadSeq:
-				at := plan.Stream.AtPacket
-				if at > len(master.packets)-1 {
-					at = len(master.packets) - 1
-				}
-				if master.packetsDelivered() > at {
+				if master.packetsDelivered() > master.causeAt {
 					streamCauseNoted = true
 					fire(plan.Stop.String())
 				}
@@ -1009,6 +1031,12 @@ func (r *Run) runAttempt(idx int, plan AttemptPlan) bool {
 			// the attempt is idle: the planned cause can no longer happen (or the
 			// attempt is a clean one): end it by the caller's cancel
 			if dumping || conn == nil || idleRounds > 0 {
+				if plan.NoCancelCtx && conn != nil && !conn.isClosed() {
+					// nobody can cancel: the master goes away instead
+					fire("fin")
+					conn.fin()
+					continue
+				}
 				fire("cancel")
 				r.cancel()
 				continue
@@ -1044,11 +1072,7 @@ func (r *Run) runAttempt(idx int, plan AttemptPlan) bool {
 		// Stream returned before the next quiescent point could note it
 		switch plan.Stop {
 		case stopERR, stopEOF, stopInvalidEvent, stopUnsupportedEvent, stopBadSeq:
-			at := plan.Stream.AtPacket
-			if at > len(r.master.packets)-1 {
-				at = len(r.master.packets) - 1
-			}
-			if r.master.packetsDelivered() > at {
+			if r.master.packetsDelivered() > r.master.causeAt {
 				att.Causes = append(att.Causes, plan.Stop.String())
 				att.CauseStep = r.steps
 			}
